@@ -1,59 +1,52 @@
 package env_test
 
 import (
-	"fmt"
-	"reflect"
 	"testing"
 
 	"github.com/mattn/anko/env"
 )
 
-type demoC12Lookup struct {
-	types map[string]reflect.Type
-}
-
-func (l *demoC12Lookup) Get(symbol string) (reflect.Value, error) {
-	return env.NilValue, fmt.Errorf("undefined symbol '%s'", symbol)
-}
-
-func (l *demoC12Lookup) Type(symbol string) (reflect.Type, error) {
-	if t, ok := l.types[symbol]; ok {
-		return t, nil
-	}
-	return env.NilType, fmt.Errorf("undefined type '%s'", symbol)
-}
-
-// Built-in type names are the LAST resort: a scope's external lookup is
-// consulted right after its own table, also in the root scope.
-func TestDemoC12ExternalTypeBeforeBasicTypes(t *testing.T) {
-	want := reflect.TypeOf(int32(0))
-	ext := &demoC12Lookup{types: map[string]reflect.Type{"int64": want, "custom": want}}
-
+// Copy / DeepCopy must give an independent snapshot no matter what happened to
+// the scope before: here the scope's table was filled and then emptied again.
+func TestDemoC12CopyAfterScopeWasEmptied(t *testing.T) {
 	root := env.NewEnv()
-	root.SetExternalLookup(ext)
-	child := root.NewEnv()
+	scope := root.NewEnv()
 
-	// sanity: names that are not built-in type names come from the external lookup
-	if got, err := root.Type("custom"); err != nil || got != want {
-		t.Fatalf("root.Type(custom) = %v, %v; want %v", got, err, want)
-	}
-	// sanity: other built-in names still resolve
-	if got, err := child.Type("string"); err != nil || got != reflect.TypeOf("") {
-		t.Fatalf("child.Type(string) = %v, %v", got, err)
+	// control: a never-used scope and a non-empty scope copy independently
+	fresh := root.NewEnv()
+	freshCopy := fresh.Copy()
+	freshCopy.Define("x", 1)
+	if _, err := fresh.Get("x"); err == nil {
+		t.Fatalf("control failed: copy of fresh scope leaked into original")
 	}
 
-	if got, err := root.Type("int64"); err != nil || got != want {
-		t.Errorf("root.Type(int64) = %v, %v; want %v from the external lookup", got, err, want)
+	// history: define, delete (table is now empty again), copy, define on the copy
+	if err := scope.Define("tmp", 1); err != nil {
+		t.Fatal(err)
 	}
-	if got, err := child.Type("int64"); err != nil || got != want {
-		t.Errorf("child.Type(int64) = %v, %v; want %v from the root's external lookup", got, err, want)
+	scope.Delete("tmp")
+	if n := len(scope.GetValueSymbols()); n != 0 {
+		t.Fatalf("scope should be empty, has %d symbols", n)
 	}
 
-	// the same external lookup on a non-root scope must behave identically
-	root2 := env.NewEnv()
-	inner := root2.NewEnv()
-	inner.SetExternalLookup(ext)
-	if got, err := inner.Type("int64"); err != nil || got != want {
-		t.Errorf("inner.Type(int64) = %v, %v; want %v", got, err, want)
+	snap := scope.Copy()
+	if err := snap.Define("b", "copy-only"); err != nil {
+		t.Fatal(err)
+	}
+	if v, err := scope.Get("b"); err == nil {
+		t.Errorf("Define on the copy became visible in the original: b = %#v", v)
+	}
+	if syms := scope.GetValueSymbols(); len(syms) != 0 {
+		t.Errorf("original scope gained symbols %v after the copy was modified", syms)
+	}
+
+	// and the other direction, through DeepCopy of a chain
+	scope.Delete("b") // no-op on a correct Env; scope's table is allocated but empty
+	deep2 := scope.NewEnv().DeepCopy() // chain: leaf' -> scope' -> root'
+	if err := scope.Define("c", "orig-only"); err != nil {
+		t.Fatal(err)
+	}
+	if v, err := deep2.Get("c"); err == nil {
+		t.Errorf("Define on the original became visible in its deep copy: c = %#v", v)
 	}
 }
